@@ -22,7 +22,7 @@ from vlib import core, c16_env as env
 ID = "C16"
 CLAIMED = True
 TITLE = "Datagram server: per-client FIFO, one active handler, nothing dropped"
-REQUIRED_THEOREMS = ["C16_fifo_once", "C16_single_runner", "C16_not_stuck", "C16_no_inconsistent_state", "C16_isolation",
+REQUIRED_THEOREMS = ["C16_fifo_once", "C16_single_runner", "C16_not_stuck", "C16_no_inconsistent_state", "C16_isolation", "C16_projection",
                      "C16_can_drain"]
 LEVEL_TEXT = (
     "Machine-checked proof (Lean 4) over the transition system of AsyncDatagramServer.serve's per-client logic "
